@@ -2163,6 +2163,21 @@ function setOwnProperty(target: any, key: unknown, value: unknown): void {
   target[key as any] = value;
 }
 
+// A declared property named like a member of Object.prototype ("toString", "constructor", ...) that
+// the value does not carry itself is absent: what a plain read finds is the inherited method.
+function readDeclaredProperty(input: any, k: string): unknown {
+  const v = input[k];
+  if (
+    v !== undefined &&
+    Object.prototype.hasOwnProperty.call(Object.prototype, k) &&
+    v === (Object.prototype as any)[k] &&
+    !Object.prototype.hasOwnProperty.call(input, k)
+  ) {
+    return undefined;
+  }
+  return v;
+}
+
 export class ObjectRuntype extends BaseRuntype {
   private properties: Record<string, Runtype>;
   private indexedPropertiesParser: Array<{
@@ -2293,7 +2308,7 @@ export class ObjectRuntype extends BaseRuntype {
       const configKeys = Object.keys(this.properties);
       for (const k of configKeys) {
         const validator = this.properties[k];
-        if (!validator.validate(ctx, input[k])) {
+        if (!validator.validate(ctx, readDeclaredProperty(input, k))) {
           return false;
         }
       }
@@ -2396,10 +2411,10 @@ export class ObjectRuntype extends BaseRuntype {
     const configKeys = Object.keys(this.properties);
 
     for (const k of configKeys) {
-      const ok = this.properties[k].validate(ctx, input[k]);
+      const ok = this.properties[k].validate(ctx, readDeclaredProperty(input, k));
       if (!ok) {
         pushPath(ctx, k);
-        const arr2 = this.properties[k].reportDecodeError(ctx, input[k]);
+        const arr2 = this.properties[k].reportDecodeError(ctx, readDeclaredProperty(input, k));
         appendErrors(acc, arr2);
         popPath(ctx);
       }
